@@ -559,7 +559,9 @@ func c04ErrToken(w *World, r *Report) {
 	}
 }
 
-func c04Empty(w *World, r *Report) {
+func c04Empty(w *World, r *Report) { c04EmptyRule(w, r, "R04.7") }
+
+func c04EmptyRule(w *World, r *Report, rule string) {
 	for _, c := range []struct{ pkg, fn string }{
 		{"xpath/grammars/expr", "newExprMachineInternal"},
 		{"xpath/grammars/leafref", "NewLeafrefMachine"},
@@ -585,7 +587,7 @@ func c04Empty(w *World, r *Report) {
 				}
 			}
 		}
-		r.Check(ok, "R04.7", c.pkg+"."+c.fn, fd.Pos(), "len(expr)==0 ⇒ (nil, error) first", "the empty expression is no longer rejected up front")
+		r.Check(ok, rule, c.pkg+"."+c.fn, fd.Pos(), "len(expr)==0 ⇒ (nil, error) first", "the empty expression is no longer rejected up front")
 	}
 	// the exported constructors all go through the internal ones
 	for _, c := range []struct{ pkg, fn, via string }{
@@ -595,7 +597,7 @@ func c04Empty(w *World, r *Report) {
 		{"xpath/grammars/path_eval", "NewPathEvalMachineWithCustomFns", "newPathEvalMachineInternal"},
 	} {
 		fd, p := w.FuncDecl(w.Func(c.pkg, c.fn))
-		r.Check(len(callsTo(p, fd.Body, w.Func(c.pkg, c.via))) == 1 && len(returnsIn(fd.Body)) == 1, "R04.7", c.pkg+"."+c.fn, fd.Pos(), "delegates to "+c.via, "constructor bypasses the checked internal constructor")
+		r.Check(len(callsTo(p, fd.Body, w.Func(c.pkg, c.via))) == 1 && len(returnsIn(fd.Body)) == 1, rule, c.pkg+"."+c.fn, fd.Pos(), "delegates to "+c.via, "constructor bypasses the checked internal constructor")
 	}
 }
 
